@@ -12,7 +12,8 @@ Ltac unfold_kernels := cbv beta delta [
   gen_ce_loop_cond gen_ce_size_in gen_ce_emit_stop gen_ce_carry_start gen_ce_size_after gen_ce_tail_cond
   gen_cl_loop_cond gen_cl_take_stop gen_cl_rest_start gen_cl_reset gen_cl_after
   gen_sum_and_n gen_br_cond gen_br_then_stop gen_br_else_stop gen_br_add gen_hr_total
-  gen_mean_reduction gen_add_hist_count gen_sum_reduction
+  gen_mean_reduction gen_ac_equal_cond gen_ac_swap_cond gen_ac_prefix_stop gen_ac_tail_start gen_ac_add gen_gb_empty_test
+  gen_add_hist_count gen_sum_reduction
   gen_sn_assert gen_sn_advance gen_sn_next gen_cn_assert gen_cn_cached gen_cn_next
   gen_gc_changed_encoded gen_gc_changed_string gen_gc_changed_plain gen_gc_index
   gen_gb_fast_test gen_gb_fast_start gen_gb_insert_pos gen_gb_insert_val gen_gb_last_bound
@@ -69,6 +70,14 @@ Lemma b_hr_total : forall r f, [gen_hr_total r f] = vadd [r] [f].
 Proof. bridge. Qed.
 Lemma b_mean_reduction : forall a0 a1 b0 b1, gen_mean_reduction a0 a1 b0 b1 = pair_add (a0, a1) (b0, b1).
 Proof. bridge. Qed.
+(* _add_columns: equal lengths add, otherwise the longer operand keeps its tail and its first len(b) columns receive b;
+   the model's sn_padadd adds the (sum, count) pairs column by column and keeps the tail of the longer list *)
+Lemma b_add_columns : forall (p q : Z * Z) (x y : list (Z * Z)) la lb,
+  sn_padadd (p :: x) (q :: y) = (gen_ac_add (fst p) (fst q), gen_ac_add (snd p) (snd q)) :: sn_padadd x y
+  /\ sn_padadd (p :: x) [] = p :: x /\ sn_padadd [] (q :: y) = q :: y
+  /\ gen_ac_equal_cond la lb = (la =? lb) /\ gen_ac_swap_cond la lb = (la <? lb)
+  /\ gen_ac_prefix_stop la lb = lb /\ gen_ac_tail_start la lb = lb.
+Proof. intros. repeat split; reflexivity. Qed.
 Lemma b_add_hist_count : forall x y, red_hist (GL [x]) (GL [y]) = GL [gen_add_hist_count x y].
 Proof. bridge. Qed.
 Lemma b_sum_reduction : forall x y, gen_sum_reduction = "operator.add"%string /\ red_add (GZ x) (GZ y) = GZ (x + y).
@@ -97,6 +106,9 @@ Lemma b_gc_index : forall i, [gen_gc_index i] = map (Z.add 1) [i].
 Proof. intros. cbn [map]. f_equal. bridge. Qed.
 Lemma b_gb_fast_test : forall first last, gen_gb_fast_test last first = m_gb_fast_test first last.
 Proof. intros. unfold_kernels. apply Z.eqb_sym. Qed.
+Lemma b_gb_empty_test : forall fast (keys data : list Z),
+  gen_gb_empty_test (len keys) = true -> groupby_chunk fast keys data = [].
+Proof. intros fast keys data H. unfold groupby_chunk. unfold_kernels. unfold gen_gb_empty_test in H. rewrite H. reflexivity. Qed.
 Lemma b_gb_fast_start : forall data : list Z, skipn (Z.to_nat gen_gb_fast_start) data = skipn 0 data.
 Proof. bridge. Qed.
 Lemma b_gb_bounds : forall ch n,
